@@ -6,6 +6,9 @@ Open Scope Z_scope.
 Lemma bridge_label_flow : gen_label_flow = model_label_flow.
 Proof. reflexivity. Qed.
 
+Lemma bridge_multi_concat : gen_multi_concat_is_pinned = true.
+Proof. reflexivity. Qed.
+
 Section B.
   Context {R : Type}.
   Variable comps : R -> list R.
